@@ -1,11 +1,39 @@
 """Independent evaluation of the published geometric k-NN entropy formula (Lord, Sun, Bollt 2018) used by C12:
 H = log N + log(unit-ball volume) + d * mean log(rho_k) + mean local ellipsoid correction.
-Brute-force neighbours; the local singular structure comes from an eigen-decomposition of the scatter matrix
-(np.linalg.eigh), NOT from the SVD routine the implementation calls."""
+Brute-force neighbours; the local singular structure comes from a one-sided Jacobi SVD written here (high relative accuracy,
+no LAPACK), NOT from the SVD routine the implementation calls."""
 import math
 
 import numpy as np
 from scipy.special import gammaln
+
+
+def jacobi_svd(A, sweeps=60):
+    """one-sided (Hestenes) Jacobi SVD: singular values (descending) and right singular vectors of A (m x d), computed to high
+    RELATIVE accuracy without LAPACK -- the independent counterpart of the np.linalg.svd call in the implementation"""
+    U = np.array(A, dtype=float, copy=True)
+    d = U.shape[1]
+    V = np.eye(d)
+    for _ in range(sweeps):
+        off = 0.0
+        for p in range(d - 1):
+            for q in range(p + 1, d):
+                a, b, c = U[:, p] @ U[:, p], U[:, q] @ U[:, q], U[:, p] @ U[:, q]
+                if abs(c) <= 1e-300 or abs(c) <= 1e-17 * math.sqrt(a * b):
+                    continue
+                off = max(off, abs(c) / math.sqrt(a * b))
+                zeta = (b - a) / (2.0 * c)
+                t = math.copysign(1.0, zeta) / (abs(zeta) + math.sqrt(1.0 + zeta * zeta))
+                cs = 1.0 / math.sqrt(1.0 + t * t); sn = cs * t
+                up, uq = U[:, p].copy(), U[:, q].copy()
+                U[:, p], U[:, q] = cs * up - sn * uq, sn * up + cs * uq
+                vp, vq = V[:, p].copy(), V[:, q].copy()
+                V[:, p], V[:, q] = cs * vp - sn * vq, sn * vp + cs * vq
+        if off < 1e-15:
+            break
+    sv = np.sqrt((U * U).sum(axis=0))
+    order = np.argsort(-sv)
+    return sv[order], V[:, order]
 
 
 def _dist(X, i, metric):
@@ -31,11 +59,10 @@ def ref_entropy(X, k, metric="euclidean", detail=False):
         logs.append(math.log(rho) if rho > 1e-12 else -12.0)
         pts = X[[i] + nb]
         Yc = pts - pts.mean(axis=0)
-        S2, V = np.linalg.eigh(Yc.T @ Yc)
-        S2, V = S2[::-1], V[:, ::-1]
+        svals, V = jacobi_svd(Yc)
         r = min(k + 1, d)
-        lam = np.clip(S2[:r], 0, None)
-        valid = lam > 1e-13 * max(lam[0], 1e-300)       # directions actually spanned by the neighbourhood
+        lam = svals[:r] ** 2
+        valid = svals[:r] > 1e-9 * max(svals[0], 1e-300)  # directions actually spanned by the neighbourhood (k+1 centred points have rank <= k)
         cnt = 0
         for z in X[nb] - X[i]:
             proj = (z @ V[:, :r])[valid]
@@ -43,7 +70,7 @@ def ref_entropy(X, k, metric="euclidean", detail=False):
             margins.append(abs(s - 1))
             cnt += 1 if s <= 1 else 0
         corr = -math.log(max(1, cnt))
-        sv = np.sqrt(lam)
+        sv = svals[:r]
         if sv[0] > 1e-12:
             for l in range(min(d, r)):
                 if valid[l] and sv[l] > 1e-12:
